@@ -47,7 +47,7 @@ def generate(tier, rng):
             a, b = b, a
         cases.append({"op": "erase", "tier": t, "args": {"a": a, "b": b, "mode": rng.choice(list(tierops.ERASE)),
                                                          "shrink": rng.random() < 0.6}, "scale": sc})
-    for _ in range(100 if tier == "quick" else 2000):
+    for _ in range(400 if tier == "quick" else 6000):
         tiers = []
         for k in range(rng.randint(1, 3)):
             t = gen.random_itier(rng, name="i%d" % k, tmax=40) if rng.random() < 0.6 else gen.random_ptier(rng, name="p%d" % k, tmax=40)
@@ -56,11 +56,14 @@ def generate(tier, rng):
         mx = max(t["max"] for t in tiers)
         for t in tiers:
             t["max"] = mx
+            # the last entry often ends exactly where the tier ends (what blank filling and Praat produce)
+            if t["kind"] == "I" and t["entries"] and rng.random() < 0.4:
+                t["entries"][-1][1] = mx
         a, b = sorted((rng.randint(0, mx), rng.randint(0, mx)))
         # a textgrid may span more than its tiers do (Textgrid(min, max) given explicitly, or after removeTier)
         tgmax = mx + rng.randint(1, 9) if rng.random() < 0.35 else mx
-        cases.append({"op": "tgerase", "tiers": tiers, "tgmax": tgmax, "args": {"a": a, "b": b, "shrink": rng.random() < 0.5},
-                      "scale": gen.pick_scale(rng)})
+        cases.append({"op": "tgerase", "tiers": tiers, "tgmax": tgmax, "args": {"a": a, "b": b, "shrink": rng.random() < 0.6},
+                      "scale": gen.pick_scale(rng, decimal_share=0.6)})
     return cases
 
 
